@@ -37,7 +37,10 @@ def diagonal(t, x, evecs, evals, n):
         Matrix, rows: vertices selected in x, cols: times in t.
     """
     # maybe add code to check dimensions of input and flip axis if necessary
-    h = np.matmul(evecs[x, 0:n] * evecs[x, 0:n], np.exp(-np.matmul(evals[0:n], t)))
+    # evals as column (n x 1), t as row (1 x #times)
+    evals = np.reshape(evals, (-1, 1))[0:n]
+    t = np.reshape(t, (1, -1))
+    h = np.matmul(evecs[x, 0:n] * evecs[x, 0:n], np.exp(-np.matmul(evals, t)))
     return h
 
 
@@ -69,7 +72,11 @@ def kernel(t, vfix, evecs, evals, n):
         Matrix m rows: all vertices, cols: times in t.
     """
     # h = evecs * ( exp(-evals * t) .* repmat(evecs(vfix,:)',1,length(t))  )
-    h = np.matmul(evecs[:, 0:n], (np.exp(np.matmul(-evals[0:n], t)) * evecs[vfix, 0:n]))
+    # evals as column (n x 1), t as row (1 x #times), weigh row j with evec_j(vfix)
+    evals = np.reshape(evals, (-1, 1))[0:n]
+    t = np.reshape(t, (1, -1))
+    efix = np.reshape(evecs[vfix, 0:n], (-1, 1))
+    h = np.matmul(evecs[:, 0:n], (np.exp(np.matmul(-evals, t)) * efix))
     return h
 
 
